@@ -272,6 +272,20 @@ def step (st : St) (cmd : String) (args : List String) : St × String :=
       | some r => ({ st with db := some { d with tracks := aset id { r with perf := none } d.tracks } }, "ok")
       | none => bad st "rmperf"
     | _, _ => bad st "rmperf"
+  | "v1.skewgrid", [v] =>
+    -- default grid made different from the adjusted one (as Engine does when a grid is adjusted)
+    match st.db, lookupVar st v with
+    | some d, some id =>
+      match d.rows id with
+      | some r =>
+        match r.perf with
+        | some p =>
+          let dflt : List GMarker := if p.beat.adj.isEmpty then [⟨0, 0⟩, ⟨4, 0x40f5888000000000⟩] else []
+          let r' := { r with perf := some { p with beat := { p.beat with dflt := dflt } } }
+          finishDb st { d with tracks := aset id r' d.tracks } id "ok"
+        | none => (st, "ok")
+      | none => bad st "skewgrid"
+    | _, _ => bad st "skewgrid"
   | "get", v :: toks =>
     match st.db, lookupVar st v with
     | some d, some id =>
